@@ -475,6 +475,7 @@ func (g *GoBackNConn) sendPacketsForever() error {
 			case <-g.quit:
 				return nil
 			case <-g.receivedACKSignal:
+				vtrace(g.timeoutManager, "wake")
 				break
 			case <-g.resendSignal:
 				if err := resendQueue(); err != nil {
